@@ -176,7 +176,139 @@ def run(ctx):
             if out != want:
                 res.mismatch(op[:300], want[:200], out[:200])
         res.extra['model_evaluations'] = len(ops)
+    end_to_end(ctx, res)
     return res
+
+
+# ---------------------------------------------------------------------------- end to end, through the real handlers
+
+def sel_within(sel, src_ts, dst_ts):
+    """packet-set inclusion of a kernel selector (as the model kernel recorded it) in a pair of policy selectors"""
+    fam, saddr, pls, daddr, pld, sport, smask, dport, dmask, proto = sel
+    def side(addr, pl, port, mask, ts):
+        net = ip_network('%s/%d' % (addr, pl), strict=False)
+        if int(ts.ts_type) != (7 if net.version == 4 else 8):
+            return False
+        if not (int(ts.start_addr) <= int(net.network_address) and int(net.broadcast_address) <= int(ts.end_addr)):
+            return False
+        if mask == 0:
+            if not (ts.start_port == 0 and ts.end_port == 65535):
+                return False
+        elif not (ts.start_port <= port <= ts.end_port):
+            return False
+        return int(ts.ip_proto) == 0 or int(ts.ip_proto) == proto
+    return side(saddr, pls, sport, smask, src_ts) and side(daddr, pld, dport, dmask, dst_ts)
+
+
+def end_to_end(ctx, res):
+    """pairs of connection configurations (mode, protocol, port, subnets of each side) through the real IKE_SA handlers:
+    every SA either kernel accepts has the mode of the local policy, a selector inside the local policy and inside the
+    peer's policy; a mode mismatch or disjoint policies install nothing anywhere; mirrored configurations do create the
+    CHILD_SA; a rekey installs exactly the selectors of the SA it replaces"""
+    import campaign as CP
+    import stateful as S
+    rng = ctx.rng
+    A_NETS = [None, '10.1.0.0/16', '10.1.2.0/24', '10.0.0.0/8']
+    B_NETS = [None, '10.2.0.0/16', '10.2.3.0/24', '10.0.0.0/8']
+    n = ctx.scale(60, 1500)
+    for k in range(n):
+        # start from mirrored policies and make one or two dimensions differ (fully random pairs are almost always disjoint)
+        mode_a = mode_b = rng.choice(['transport', 'tunnel'])
+        proto_a = proto_b = rng.choice(['tcp', 'udp', 'any'])
+        port_a = port_b = rng.choice([0, 23, 80])
+        sa, sb = rng.choice(A_NETS), rng.choice(B_NETS)
+        if (sa is None) != (sb is None):
+            sa, sb = (sa or '192.168.0.1/32'), (sb or '192.168.0.2/32')
+        sa2, sb2 = sa, sb
+        if rng.random() < 0.7:
+            for dim in rng.sample(['mode', 'proto', 'port', 'neta', 'netb'], rng.choice([1, 1, 2])):
+                if dim == 'mode':
+                    mode_b = 'tunnel' if mode_a == 'transport' else 'transport'
+                elif dim == 'proto':
+                    proto_b = rng.choice(['tcp', 'udp', 'any'])
+                elif dim == 'port':
+                    port_b = rng.choice([0, 23, 80])
+                else:
+                    if sa is None:
+                        sa, sb = sa2, sb2 = '192.168.0.1/32', '192.168.0.2/32'
+                    if dim == 'neta':
+                        sa2 = rng.choice(A_NETS[1:])
+                    else:
+                        sb2 = rng.choice(B_NETS[1:])
+        conf = {'mode': mode_a, 'mode_b': mode_b, 'ip_proto': proto_a, 'ip_proto_b': proto_b, 'port': port_a, 'port_b': port_b,
+                'subnets': (sa, sb), 'subnets_b': (sa2, sb2), 'dpd': 5000, 'ike_lifetime': 5000}
+        seed = rng.randrange(1 << 30)
+        rep = {'seed': seed, 'conf': {x: str(y) for x, y in conf.items()}}
+        res.evaluations += 1
+        res.nontrivial.add(('e2e', repr(sorted(conf.items()))))
+        with CP.History(seed, trace=False, **conf) as h:
+            h.oracles = [CP.o_no_escape, CP.o_sad_equals_tracked]
+            w = h.w
+            pol = {e.name: list(e.configuration.ike_configurations.values())[0].protect[0] for e in (w.A, w.B)}
+            who = rng.choice(['A', 'A', 'B'])
+            ep, peer = (w.A, w.B) if who == 'A' else (w.B, w.A)
+            P, Q = pol[ep.name], pol[peer.name]
+            # the packet that triggers the acquire lies inside the initiator's own policy
+            src = str(P.my_ts.start_addr + rng.randrange(int(P.my_ts.end_addr) - int(P.my_ts.start_addr) + 1))
+            dst = str(P.peer_ts.start_addr + rng.randrange(int(P.peer_ts.end_addr) - int(P.peer_ts.start_addr) + 1))
+            sport = P.my_ts.get_port() or rng.choice([0, 4321])
+            pr = int(P.my_ts.ip_proto) or rng.choice([0, 6, 17])
+            ev = ep.acquire_event(P.index, src, dst, sport=sport, dport=P.peer_ts.get_port(), proto=pr)
+            ep.step(event=ev)
+            h.settle(40)
+            same_mode = mode_a == mode_b
+            # do the policies overlap at all the way the lookup needs (one contains the other, per side)?
+            compatible = same_mode and conf['subnets'] == conf['subnets_b'] and proto_a == proto_b and port_a == port_b
+
+            def check_installed(tag):
+                for e in (w.A, w.B):
+                    mine, theirs = pol[e.name], pol[(w.B if e is w.A else w.A).name]
+                    for rec in e.kernel.log:
+                        if rec['op'] != 'NEWSA' or rec['err']:
+                            continue
+                        out = rec['saddr'] == str(e.addrs[0])
+                        if rec['mode'] != int(mine.mode):
+                            res.fail('e2e-mode-not-policy', '%s: %s installed an SA in mode %d, its policy says %s'
+                                     % (tag, e.name, rec['mode'], mine.mode.name), rep)
+                        a, b = (mine.my_ts, mine.peer_ts) if out else (mine.peer_ts, mine.my_ts)
+                        if not sel_within(rec['sel'], a, b):
+                            res.fail('e2e-selector-outside-own-policy', '%s: %s installed selector %s outside its own policy'
+                                     % (tag, e.name, rec['sel']), rep)
+                        a, b = (theirs.peer_ts, theirs.my_ts) if out else (theirs.my_ts, theirs.peer_ts)
+                        if not sel_within(rec['sel'], a, b):
+                            res.fail('e2e-selector-outside-peer-policy', "%s: %s installed selector %s outside the peer's policy"
+                                     % (tag, e.name, rec['sel']), rep)
+            check_installed('initial')
+            installed = [rec for e in (w.A, w.B) for rec in e.kernel.log if rec['op'] == 'NEWSA' and not rec['err']]
+            if not same_mode:
+                res.count('e2e:mode-mismatch')
+                if installed:
+                    res.fail('e2e-installed-despite-mode-mismatch', 'policies ask for %s / %s and still %d SAs were installed'
+                             % (mode_a, mode_b, len(installed)), rep)
+            elif compatible:
+                res.count('e2e:mirrored')
+                kids = [len(x.child_sas) for e in (w.A, w.B) for x in e.sas() if int(x.state) == 10]
+                if kids != [1, 1]:
+                    res.fail('e2e-mirrored-refused', 'mirrored policies and no CHILD_SA pair: %s' % kids, rep)
+            else:
+                res.count('e2e:differing-%s' % ('created' if installed else 'refused'))
+            # rekey: exactly the selectors of the replaced SA
+            me = next((x for x in ep.sas() if int(x.state) == 10 and x.child_sas), None)
+            if me is not None:
+                old = me.child_sas[0]
+                before = {e.name: len(e.kernel.log) for e in (w.A, w.B)}
+                old_sels = {e.name: sorted(rec['sel'] for rec in e.kernel.sad.values()) for e in (w.A, w.B)}
+                h.op('expire', ep.name, old.inbound_spi, False)
+                h.settle(40)
+                res.count('e2e:rekey')
+                for e in (w.A, w.B):
+                    new = sorted(rec['sel'] for rec in e.kernel.log[before[e.name]:] if rec['op'] == 'NEWSA' and not rec['err'])
+                    if new and new != old_sels[e.name]:
+                        res.fail('e2e-rekey-selectors-changed', '%s: rekey installed selectors %s, the replaced pair had %s'
+                                 % (e.name, new, old_sels[e.name]), rep)
+                check_installed('rekey')
+            for key, what, at in h.findings[:2]:
+                res.fail(key, what, dict(rep, ops=S.ser_ops(h.ops[:at + 1])))
 
 
 def replay(rep):
